@@ -473,11 +473,11 @@ def run(chk: core.Check):
     chk.notes["boundary_mined"] = len(mined)
     stream("boundary", mined, impl_mvcapa)
     rng = core.rng_for(chk.seed, "C03/mvcapa")
-    stream("mvcapa-table", [gen_case(rng, nmax) for _ in range(N)], impl_mvcapa)
+    stream("mvcapa-table", core.Gen(gen_case, rng, nmax, N), impl_mvcapa)
     rng = core.rng_for(chk.seed, "C03/capa")
     stream("capa-table", [as_capa(gen_case(rng, nmax)) for _ in range(N // 2)], impl_capa)
     rng = core.rng_for(chk.seed, "C03/builtin")
-    chk.run_stream("builtin", [gen_builtin(rng, min(nmax, 16)) for _ in range(N // 3)], impl_builtin,
+    chk.run_stream("builtin", core.Gen(gen_builtin, rng, min(nmax, 16), N // 3), impl_builtin,
                    oracle=oracle_builtin, skip=skip_builtin, nontrivial=nontriv, site="CAPA/builtin",
                    describe=lambda c: {k: v for k, v in c.items() if k != "X"} | {"X[:4]": c["X"][:4]})
     return chk.finish()
